@@ -134,6 +134,29 @@ def evaluate(case):
     if not ok:
         raise Violation("definition", op, f"a.{op}(b): " + why, observed=kd.show(got), expected=kd.show(exp))
     counters = {}
+    # operand forms: a scalar-only operand given as a plain number (either side), a list or a zero-argument callable on the left:
+    # all must equal the operator on the explicit multivectors, in the same operand order
+    if case["mode"] != "generic":
+        def _form(fn, what):
+            r = _call(fn, "definition", op)
+            rr = r[0] if isinstance(r, (list, tuple)) else r
+            ok2, why2 = kd.elem_equal(kd.to_dict(rr, op=op), exp)
+            if not ok2:
+                raise Violation("definition", op, f"{what}: {why2}", observed=kd.show(kd.to_dict(rr)), expected=kd.show(exp))
+            counters["checked:operand-forms"] = counters.get("checked:operand-forms", 0) + 1
+        fnobj = getattr(alg, op)
+        if list(kb) == [0] and not hasattr(vb[0], "shape"):
+            _form(lambda: getattr(x, op)(vb[0]), f"a.{op}(number) with the plain number {vb[0]!r} ({type(vb[0]).__name__}) for the scalar operand")
+            _form(lambda: fnobj(x, vb[0]), f"alg.{op}(a, number)")
+        if list(ka) == [0] and not hasattr(va[0], "shape"):
+            _form(lambda: fnobj(va[0], y), f"alg.{op}(number, b) with the plain number {va[0]!r} ({type(va[0]).__name__}) for the scalar operand")
+        _form(lambda: fnobj([x], y), f"alg.{op}([a], b)")
+        _form(lambda: fnobj(lambda: x, y), f"alg.{op}(lambda: a, b)")
+        if op in ("op", "ip"):
+            import operator as _o
+            inf = _o.xor if op == "op" else _o.or_
+            _form(lambda: inf([x], y), f"[a] {'^' if op == 'op' else '|'} b")
+            _form(lambda: inf(lambda: x, y), f"(lambda: a) {'^' if op == 'op' else '|'} b")
     # consequences on kingdon's own outputs
     gpk = kd.to_dict(_call(lambda: x * y, "consistent-with-gp", "gp"), op="gp")
     if op in ("cp", "acp"):
